@@ -764,6 +764,11 @@ pub fn gen_strong_with(r: &mut Rng, so: StrongOpts) -> (String, String) {
     o.max_body = 2;
     if so.hostile_names {
         o.preds = vec![("p".into(), 1), ("hp".into(), 1), ("tp".into(), 1), ("t".into(), 0), ("h".into(), 2)];
+        if so.hostile_symbols && r.chance(1, 3) {
+            // a predicate named like a renamed symbolic constant (p__s: its h-copy is hp__s,
+            // the name the constant hp gets)
+            o.preds.push(("p__s".into(), 1));
+        }
     } else if r.chance(1, 3) {
         o.preds = vec![("p".into(), 1), ("q".into(), 1), ("s".into(), 0)];
     }
